@@ -113,7 +113,8 @@ def mono_mul(a, b):
 
 
 class Norm:
-    def __init__(self, core, terms=None):
+    def __init__(self, core, terms=None, rename=None):
+        self.rename = rename
         self.core = core
         self.nodes = core['nodes']
         self.varinfo = core['vars']
@@ -122,7 +123,8 @@ class Norm:
         self.atoms = set()   # term ids used as denominators (assumed non-zero)
 
     def var_term(self, vid):
-        return self.T.var(self.varinfo[vid]['name'])
+        name = self.varinfo[vid]['name']
+        return self.T.var(self.rename(name) if self.rename else name)
 
     def nm(self, n):
         """returns (num term id, den monomial {term id: exp}, mono of num or None)"""
@@ -205,7 +207,7 @@ class Norm:
         return Frac(self, self.T.const(c), {}, {} if c == 1 else None)
 
     def fvar(self, name):
-        t = self.T.var(name)
+        t = self.T.var(self.rename(name) if self.rename else name)
         return Frac(self, t, {}, {t: 1})
 
 
